@@ -375,6 +375,9 @@ fn driver_text(ty: Ty) -> String {
     } else {
         ""
     };
+    // the argument of `filled` is kept in a variable and mutated afterwards: no slot of the result may be the
+    // argument itself (independent copies), which the dump at the end of the step shows
+    let filled_alias = if ty == Ty::Nested { "        x.push(9)\n" } else { "" };
     format!(
         r#"use vh
 fn mk(v: int) -> {elem} {{
@@ -451,8 +454,9 @@ while true {{
     }} else if op == 14 {{
         let v = vh_next_int()
         let n = vh_next_int()
-        a = array.filled(mk(v), n)
-{inner_push}    }}
+        let x = mk(v)
+        a = array.filled(x, n)
+{filled_alias}{inner_push}    }}
     dump(a)
 }}
 "#
@@ -529,7 +533,10 @@ fn describe(ty: Ty, h: &[Op]) -> (String, String) {
                 ),
             ),
             Op::Iterate => ("iterate".into(), "for x in a {\n    println(x)\n}".into()),
-            Op::Filled(x, n) => (format!("filled {} {n}", m(x)), format!("a = array.filled({}, {n})", m(x))),
+            Op::Filled(x, n) => (
+                format!("filled {} {n}", m(x)),
+                format!("let x{k} = {}\na = array.filled(x{k}, {n}){}", m(x), if ty == Ty::Nested { format!("\nx{}.push(9)", words.len()) } else { String::new() }, k = words.len()),
+            ),
             Op::InnerPush(i) => (format!("inner-push {}", r(i)), format!("a[{}].push(5)", r(i))),
         };
         words.push(w);
@@ -982,7 +989,7 @@ impl Prop for C26 {
             "breadth-first search over all operation histories of length <= {} from the literal start states [], [e0], [e0, e1, e0] for element types \
              int, string (built by concatenation), array<int>, void; operations: push v, pop, len, is_empty, get i, set i v, swap i j, remove i, clear, \
              find v, contains v, clone-then-mutate-the-clone (for array<int> also every inner array of the clone), for-in and for-index iteration, \
-             a = array.filled(v, n) (n in 0..2), inner push a[i].push(5) (array<int> only); v in {{e0, e1}}, i, j in {{-1, 0, 1, 2, len-1, len}}; states merged on the \
+             a = array.filled(x, n) (n in 0..2) followed, for array<int> elements, by a mutation of the argument x, inner push a[i].push(5) (array<int> only); v in {{e0, e1}}, i, j in {{-1, 0, 1, 2, len-1, len}}; states merged on the \
              model list contents; every transition replays its whole history on a fresh VM through one compiled host-driven driver and is compared with a Rust Vec \
              model after every step (operation result + len + every element); out-of-range index => runtime error `indexed past the end of an array`, pop on \
              empty => any clean runtime error, never a host panic; non-trivial = the history changes the list or ends in an expected runtime error{}",
